@@ -49,12 +49,80 @@ def run(s):
     K.item_grid(s, 3, pretties=(False,), kmax=2, full=False, inters=(False,), item_names=K.LONG_NAMES)
     K.item_grid(s, 3, pretties=(False,), full=False, inters=(False,))
     K.many_unresolvable(s)
+    collection_reports(s, 60 if q else 3000)
     K.idless_cases(s)
     K.fuzz(s, 120 if q else 12000, K.kind_weights(1, 1, 0.3), steps=(5, 25),
            shape_weights=(0.6, 0.25, 0.12, 0.03), selfref=0.1, direct=0.3)
 
 
-replay = K.replay_transition
+def collection_reports(s, n):
+    """Through a (non-strict) collection nothing is skipped silently either: every message is added
+    (one ADD event per reader), and the warnings are those of adding the messages one by one - also
+    when several consecutive messages name the same missing story."""
+    from .. import events as EV
+    for c in range(n):
+        if not s.mine(c):
+            continue
+        rng = s.rng('coll', c)
+        pool = gen.text_pool('plain')
+        ro_txt = gen.grid_ro(['A', 'B', 'C'], 'before', pretty=False)
+        docs = [ro_txt]
+        mid = 10
+        k = rng.randint(2, 4)
+        for j in range(k):
+            # the same missing story, sent again and again
+            docs.append(B.msg_doc('roStorySend', mid, story_ref='GONE', body=[B.E('p', 'version %d' % j)],
+                                  fields=[B.E('storySlug', 'v%d' % j), 'BODY']))
+            mid += 1
+        for j in range(rng.randint(0, 3)):
+            kind = rng.choice(['roStoryDelete', 'EAStoryDelete', 'roItemDelete'])
+            if kind == 'roItemDelete':
+                docs.append(B.msg_doc(kind, mid, story_ref='A', ids=['nope-%d' % j, 'A.0'][:rng.randint(1, 2)]))
+            else:
+                docs.append(B.msg_doc(kind, mid, ids=['nope-%d' % j] + (['B'] if j == 0 else [])))
+            mid += 1
+        docs.append(B.msg_doc('roDelete', 900))
+        rng.shuffle(docs)
+        judge_collection_reports(s, docs)
+
+
+def judge_collection_reports(s, docs):
+    import warnings as W
+    from .. import events as EV
+    EV.drain()
+    mc, cerr, merr, wl = K.collection_merge(s, docs, False, allow_incomplete=True)
+    if mc is None:
+        return
+    got = sorted(type(w.message).__name__ for w in wl if type(w.message).__name__ in
+                 ('StoryNotFoundWarning', 'ItemNotFoundWarning', 'DuplicateStoryWarning'))
+    # reference: the same messages added one by one, freshly read, in message-ID order
+    from ..spec import classify_doc
+    from xml.etree import ElementTree as ET
+    ordered = sorted(docs, key=K.message_id_of)
+    create = [d for d in ordered if classify_doc(ET.fromstring(d)) == 'RunningOrder'][0]
+    ro = s.load(create)
+    want = []
+    for d in ordered:
+        if d is create:
+            continue
+        ro, err, w1 = s.add(ro, s.load(d))
+        want += [type(w.message).__name__ for w in w1]
+    EV.drain()
+    want = sorted(x for x in want if x in ('StoryNotFoundWarning', 'ItemNotFoundWarning', 'DuplicateStoryWarning'))
+    s.evaluations += 1
+    s.note_sig(('collection-reports', len(docs), len(want), got == want))
+    s.hist['collection_reports'] += 1
+    if got != want or merr is not None:
+        s.custom_violation('collection-merge-reports-differ-from-adding-one-by-one',
+                           {'collection': got, 'one_by_one': want, 'merge_exc': type(merr).__name__ if merr else None},
+                           {'type': 'collection-reports', 'docs': docs}, status='collection')
+
+
+def replay(s, data):
+    w = data['witness']
+    if w.get('type') == 'collection-reports':
+        return judge_collection_reports(s, w['docs'])
+    K.replay_transition(s, data)
 
 
 def gates(agg, tier):
